@@ -50,7 +50,7 @@ class Sched:
             self.p.kill()
 
 
-def call_class(root, extdir, call):
+def call_class(root, extdir, call, extra_tmp=()):
     """abstract class of a visible call: which area it touches and how"""
     path = call.get("path2") or call.get("path") or ""
     p1 = call.get("path") or ""
@@ -59,6 +59,8 @@ def call_class(root, extdir, call):
     def area(p):
         if p.startswith(extdir):
             return "ext"
+        if any(p.startswith(x) for x in extra_tmp):
+            return "tmp"          # <cache>/tmp relocated to another file system
         rel = os.path.relpath(p, root) if p.startswith(root) else p
         if rel == ".":
             return "root"
@@ -67,7 +69,8 @@ def call_class(root, extdir, call):
     a = area(path.replace(" (deleted)", ""))
     a1 = area(p1.replace(" (deleted)", "")) if p1 else a
     depth = len(os.path.relpath(path.replace(" (deleted)", ""), root).split(os.sep)) if path.startswith(root) else 0
-    isfile = (a == "index" and depth == 4) or (a == "content" and depth == 5) or (a == "tmp" and depth == 2)
+    isfile = (a == "index" and depth == 4) or (a == "content" and depth == 5) or (a == "tmp" and depth == 2) \
+        or (a == "tmp" and any(path.startswith(x) and path != x for x in extra_tmp))
     rel = os.path.relpath(path.replace(" (deleted)", ""), root) if path.startswith(root) else ""
     rel1 = os.path.relpath(p1.replace(" (deleted)", ""), root) if p1.startswith(root) else ""
     return {"area": a, "area1": a1, "file": isfile, "name": name, "mut": call.get("mut", 0), "rel": rel,
@@ -86,9 +89,10 @@ class FsRun:
         self.nsteps = 0
 
     # -------------------------------------------------------------- traced phase
-    def begin(self, resolvable=True):
+    def begin(self, resolvable=True, extra_roots=()):
         s = self.sess
-        self.sched = Sched([s.root, s.extdir])
+        self.extra_tmp = list(extra_roots)
+        self.sched = Sched([s.root, s.extdir] + list(extra_roots))
         snap = s.project()
         s.prev = snap
         self.events.append({"ev": "begin", "snap": self._snap(snap), "resolvable": bool(resolvable)})
@@ -118,7 +122,7 @@ class FsRun:
             call = r["done"]["call"]
             ev = {"ev": "sys", "p": i, "ret": r["done"]["ret"], "faulted": bool(r["done"].get("faulted")),
                   "action": action or "step", "count": call.get("count", -1), "flags": call.get("flags", 0)}
-            ev.update(call_class(s.root, s.extdir, call))
+            ev.update(call_class(s.root, s.extdir, call, getattr(self, "extra_tmp", ())))
             ev["tmpfull"] = self._tmpfull(i, ev, call)
             ev["snap"] = self._snap(snap)
             if snap["other"]:
